@@ -14,7 +14,8 @@ PAT="${1:-}"
 OUT=$V/mutants/MATRIX.txt
 [ -n "${SEEDED:-}" ] && OUT=$V/seeded/MATRIX.txt
 export VERIF_WALL_CAP_S="${VERIF_WALL_CAP_S:-600}"
-SCR=/tmp/cbv-selftest-$(echo -n "$V" | md5sum | cut -c1-6)
+SCR=/tmp/cbv-selftest-$(echo -n "$V${SHARD:-}" | md5sum | cut -c1-6)
+[ -n "${SHARD:-}" ] && OUT=$OUT.$SHARD
 [ -z "$PAT" ] && : > $OUT
 ALL="C01 C02 C03 C04 C05 C06 C07 C08 C09 C10 C11 C12 C13 C14 C15 C16 C17 C18 C19"
 git -C /repo worktree remove --force $SCR 2>/dev/null
@@ -23,17 +24,17 @@ export VERIF_REPO=$SCR
 TAG="-$(echo -n "$SCR" | md5sum | cut -c1-8)"
 cleanup() {
   git -C /repo worktree remove --force $SCR 2>/dev/null
-  rm -rf $V/target/hooks$TAG $V/target/plain$TAG $V/harness$TAG $V/target/build$TAG.log* $V/target/selftest
+  rm -rf $V/target/hooks$TAG $V/target/plain$TAG $V/harness$TAG $V/target/build$TAG.log* $V/target/selftest${SHARD:-}
 }
 trap cleanup EXIT
 if [ -n "${SEEDED:-}" ]; then LIST=$(ls seeded/${PAT}*/patch.diff); else LIST=$(ls mutants/${PAT}*.patch); fi
 for P in $LIST; do
   if [ -n "${SEEDED:-}" ]; then name=$(basename $(dirname $P)); else name=$(basename $P .patch); fi
   ( cd $SCR && git checkout -q -- . && git apply $V/$P ) || { echo "$name cannot-apply" | tee -a $OUT; continue; }
-  if [ -n "${SEEDED:-}" ]; then t=confirmed-earlier; elif ( cd $SCR && CARGO_TARGET_DIR=$V/target/selftest cargo test --workspace --no-fail-fast --offline >$V/target/selftest.log 2>&1 ); then t=pass; else t=FAIL; fi
+  if [ -n "${SEEDED:-}" ]; then t=confirmed-earlier; elif ( cd $SCR && CARGO_TARGET_DIR=$V/target/selftest${SHARD:-} cargo test --workspace --no-fail-fast --offline >$V/target/selftest${SHARD:-}.log 2>&1 ); then t=pass; else t=FAIL; fi
   fired=""; broken=""
   for c in ${CHECKS:-$ALL}; do
-    VERIF_EVIDENCE_DIR=$SCR-evidence ./check $c --tier quick >$V/target/selftest-check.log 2>&1; rc=$?
+    VERIF_EVIDENCE_DIR=$SCR-evidence ./check $c --tier quick >$V/target/selftest-check${SHARD:-}.log 2>&1; rc=$?
     [ $rc -eq 1 ] && fired="$fired $c"
     [ $rc -ge 2 ] && broken="$broken $c"
   done
